@@ -12,7 +12,8 @@ cleanup() { git -C /repo worktree remove --force $W/lisp 2>/dev/null; rm -rf $W;
 trap cleanup EXIT
 cd $W/lisp
 FILE=$(jq -r '.demo.file' $D/meta.json); DEST=$(jq -r '.demo.copy_to' $D/meta.json); CMD=$(jq -r '.demo.command' $D/meta.json)
-DEST=${DEST#/tmp/wt*/lisp/}; DEST=${DEST#./}
+FILE=$(basename "$FILE"); DEST=$(echo "$DEST" | sed -E 's#^/tmp/wt[A-Za-z0-9]*/lisp/##; s#^\./##; s#^lisp/##'); CMD=$(echo "$CMD" | sed -E 's#cd /tmp/wt[A-Za-z0-9]*/lisp *&& *##g; s#export [A-Z=a-z -]*&& *##g')
+case "$DEST" in */) DEST="$DEST$FILE";; esac
 run_demo() { mkdir -p "$(dirname "$DEST")"; cp "$D/$FILE" "$DEST"; (eval "$CMD") > $W/demo.out 2>&1; rc=$?; rm -f "$DEST"; return $rc; }
 echo "== unchanged tree: demo must pass"; if run_demo; then echo "  demo passes on the unchanged tree"; else echo "  DEMO FAILS ON THE UNCHANGED TREE"; tail -15 $W/demo.out; exit 1; fi
 git apply "$D/patch.diff" || { echo "PATCH DOES NOT APPLY"; exit 1; }
